@@ -296,6 +296,27 @@ def run(ctx):
     c.parse()
     if effect(b.tracts) != effect(c.tracts) or b.tracts[0].lots != ['L1']:
         rep.violation('failing-input', {'setting': 'suppress_lot_divs', 'why': 'config channels differ', 'observed': [effect(b.tracts), effect(c.tracts)]})
+    # depth family: a depth given in the config vs. a *different* depth keyword; PLSSDesc and Tract must agree
+    for a in (1, 2, 3):
+        for kw in ({'qq_depth_min': 1}, {'qq_depth_min': 3}, {'qq_depth_max': 2}, {'qq_depth_min': 1, 'qq_depth_max': 1},
+                   {'qq_depth': 2}, {}):
+            for cfgname in ('qq_depth', 'qq_depth_min', 'qq_depth_max'):
+                cfg = f'{cfgname}.{a}'
+                text = 'T154N-R97W Sec 14: N/2 NE/4 NW/4'
+                try:
+                    d = pytrs.PLSSDesc(text, config=cfg, wait_to_parse=True)
+                    r1 = d.parse(parse_qq=True, commit=False, **kw)
+                    t = pytrs.Tract('N/2 NE/4 NW/4', config=cfg)
+                    t.parse(**kw)
+                    if [x.qqs for x in r1] != [t.qqs]:
+                        rep.violation('failing-input', {'class': 'PLSSDesc vs Tract', 'config': cfg, 'keywords': kw, 'text': text,
+                                                        'why': 'the same config and keywords give different depths in PLSSDesc and in Tract',
+                                                        'PLSSDesc': [x.qqs for x in r1], 'Tract': t.qqs})
+                except Exception as e:  # noqa
+                    rep.violation('failing-input', {'config': cfg, 'keywords': kw, 'why': f'raised {type(e).__name__}: {e}'})
+                rep.count()
+                rep.nontrivial(('depth-conflict', cfg, str(kw)))
+                items.append(descs.corr_item(text, cfg=cfg, wait=True, kw=dict(kw, parse_qq=True)))
     check_masterconfig(rep)
     rep.count(3)
     ctx.compare(items)
